@@ -30,6 +30,11 @@ HARNESSES = {
         ("c18_tensor_random_triple", "qt", 600, False, "Tensor::random(Triple(1,1,2)): nesting and range for an arbitrary clock"),
         ("c18_tensor_random_double", "t", 600, False, "Tensor::random(Double(2,1)): nesting and range for an arbitrary clock"),
     ],
+    "C07": [
+        ("c07_relu_every_finite_float", "t", 900, False, "ReLU forward/backward on a flat 1-element tensor equal max(0,x) / [x>0] for every finite f32"),
+        ("c07_leaky_relu_every_finite_float", "t", 900, False, "LeakyReLU forward/backward equal x|0.01x / 1|0.01 for every finite f32"),
+        ("c07_linear_every_finite_float", "t", 900, False, "Linear forward/backward equal x / 1 for every finite f32"),
+    ],
     "C08": [
         ("c08_conv_shape", "qt", 900, False, "Convolution::create announces the standard output shape for all ic<=3,f<=2,ih,iw<=64,k<=8,s<=4,p<=3,d<=3 whose effective kernel fits"),
         ("c08_deconv_shape", "qt", 900, False, "Deconvolution::create announces (i-1)s+k-2p for all ih,iw<=64,k<=8,s<=4,p<=3"),
@@ -224,7 +229,8 @@ def write_ev(here, prop, tier, seed, results, t_start, why, inconclusive, t_buil
             "Kani 0.68 / CBMC 6.11 bounded model checking of the compiled /repo (feature verif, rebuilt this run): each harness makes the inputs "
             "kani::any() within the stated ranges and the SAT solver decides every assertion, overflow, index and unwinding check for all values at once.",
             "functions_encoded": sorted(set(["random::Generator::{create,generate,shuffle}", "tensor::Tensor::random"] if prop == "C18" else
-                                            ["Convolution::create", "Deconvolution::create", "Maxpool::create", "*::calculate_output_size"])),
+                                            (["activation::{ReLU,LeakyReLU,Linear}::{forward,backward}"] if prop == "C07" else
+                                             ["Convolution::create", "Deconvolution::create", "Maxpool::create", "*::calculate_output_size"]))),
             "bounds": {r["name"]: r["claim"] for r in results},
             "harnesses": len(results), "obligations": checks, "discharged": sum((r.get("checks") or 0) for r in ok),
             "evaluations": len(results), "distinct_nontrivial": len(results),
